@@ -273,6 +273,12 @@ func (e *Exec) navigate(v Value, path []PElem, t types.Type) Value {
 				}
 				return &PtrV{Ref: pv.Ref, ID: id, Nil: e.c.Not(e.c.Select(x.NonNil, pe.Index))}
 			}
+			if sv, ok := fv.(*SliceV); ok && x.NonNil != nil && pe.Index != nil && i == len(path)-1 {
+				// an array of slices: which elements are nil is remembered (a nil slice has length 0)
+				nn := e.c.Select(x.NonNil, pe.Index)
+				e.axiom(nil, e.c.Implies(e.c.Not(nn), e.c.Eq(sv.Len, BVConst(0, 64))))
+				return &SliceV{Base: sv.Base, Off: sv.Off, Len: sv.Len, Cap: sv.Cap, Nil: e.c.Not(nn), Elem: sv.Elem}
+			}
 			return fv
 		case *StringV:
 			// string stored as struct-like leaf inside SoA: not navigable
@@ -350,6 +356,10 @@ func (e *Exec) update(v Value, path []PElem, nv Value) Value {
 			n.NonNil = e.c.Store(x.NonNil, pe.Index, e.c.Not(pv.Nil))
 		} else if x.IDs != nil && len(path) == 1 {
 			n.IDs, n.NonNil = e.c.Fresh("pid", x.IDs.Sort), e.c.Fresh("pnn", x.NonNil.Sort)
+		} else if sv, ok := nv.(*SliceV); ok && x.NonNil != nil && pe.Index != nil && len(path) == 1 {
+			n.NonNil = e.c.Store(x.NonNil, pe.Index, e.c.Not(sv.Nil))
+		} else if x.NonNil != nil && len(path) == 1 {
+			n.NonNil = e.c.Fresh("pnn", x.NonNil.Sort)
 		}
 		if pe.Index != nil && pe.Index.Const && len(path) == 1 {
 			n.Known = make(map[uint64]Value, len(x.Known)+1)
@@ -395,6 +405,13 @@ func (e *Exec) newOpaqueArr(elem types.Type, hint string, zero bool) *OpaqueArrV
 			a.IDs, a.NonNil = e.c.ZeroOf(SArr(SBV(64))), e.c.ZeroOf(SArr(SBool))
 		} else {
 			a.IDs, a.NonNil = e.c.Fresh(hint+".pid", SArr(SBV(64))), e.c.Fresh(hint+".pnn", SArr(SBool))
+		}
+	}
+	if _, ok := elem.Underlying().(*types.Slice); ok {
+		if zero {
+			a.NonNil = e.c.ZeroOf(SArr(SBool))
+		} else {
+			a.NonNil = e.c.Fresh(hint+".snn", SArr(SBool))
 		}
 	}
 	return a
